@@ -48,7 +48,7 @@ Lemma cn_plus_adv_other c u x st cd tg p :
   x <> u -> (exists e, c = cnt_of u e) -> cn_plus c [EAdv st [(x, cd, tg)] p] u = c.
 Proof.
   intros N [e ->]. unfold cn_plus, cnt_of; cbn. rewrite (neq_eqb _ _ N).
-  destruct st; cbn; rewrite ?andb_false_l; cbn; rewrite !addc_0; reflexivity.
+  destruct st, p; cbn; rewrite ?andb_false_l; cbn; rewrite !addc_0; reflexivity.
 Qed.
 
 (* cancel_task(x) leaves every other uid alone *)
